@@ -239,9 +239,9 @@ func inputs(uses int) [][]string {
 		alts []string
 	}
 	dims := []dim{
-		{inC1, []string{"", `set req.http.C1 = "1";`}},
-		{inC2, []string{"", `set req.http.C2 = "1";`}},
-		{inC3, []string{"", `set req.http.C3 = "1";`}},
+		{inC1, []string{"", `set req.http.C1 = "1";`, `set req.http.C1 = "";`}},
+		{inC2, []string{"", `set req.http.C2 = "1";`, `set req.http.C2 = "";`}},
+		{inC3, []string{"", `set req.http.C3 = "1";`, `set req.http.C3 = "";`}},
 		{inS, []string{`set req.http.S = "1";`, `set req.http.S = "2";`, `set req.http.S = "3";`}},
 		{inURL, []string{`set req.url = "/a/x";`, `set req.url = "/b";`}},
 	}
